@@ -89,7 +89,23 @@ func VH_C06() {
 	}
 	// message
 	hygieneOnly := vParam("hygiene", 0) == 1
-	msg := vString(vParam("msg", 2))
+	// a []byte value is checked with a fixed message, so that every control
+	// byte in the output can only come from the value
+	rawBytes := vParam("attrkinds", 4) > 4 && vChoose(2) == 1
+	nk := vParam("attrkinds", 4)
+	if nk > 4 {
+		nk = 4
+	}
+	if rawBytes {
+		nk = 1
+	}
+	kind := vChoose(nk)
+	// symbolic values are combined with a fixed message (message and values are
+	// independent in the code); the symbolic message with fixed values
+	msg := "m"
+	if !rawBytes && kind != 2 {
+		msg = vString(vParam("msg", 2))
+	}
 	vAssume(len(msg) > 0)
 	for i := 0; i < len(msg); i++ {
 		c := msg[i]
@@ -113,7 +129,7 @@ func VH_C06() {
 	// attributes
 	var attrs Attrs
 	var want []string
-	switch vChoose(vParam("attrkinds", 4)) {
+	switch kind {
 	case 1:
 		attrs = Attrs{NewAttr("b", 2), NewAttr("a", 1)}
 		want = []string{"a=1", "b=2"}
@@ -125,12 +141,10 @@ func VH_C06() {
 		attrs = Attrs{NewAttr("e", errors.New("boom")), Group("g", "x", 1)}
 		want = []string{`e="boom"`, "g.x=1"}
 	}
-	rawBytes := false
-	if len(attrs) == 0 && vParam("attrkinds", 4) > 4 && vChoose(2) == 1 {
+	if rawBytes {
 		b := vString(1)
 		attrs = Attrs{NewAttr("y", []byte(b))}
 		want = []string{"y=" + strconvQuote(b)}
-		rawBytes = true
 	}
 	lg.WriteThru(vCtx, sev, vTime0(), 0, msg, attrs)
 	vAssert(len(rec.evs) == 1, "C06: one record")
@@ -141,8 +155,9 @@ func VH_C06() {
 		vKnown("C06-byte-slices-written-raw")
 	}
 	vAssert(ok, "C06: every escape byte in the record belongs to one of the library's own SGR sequences")
-	if strings.Contains(msg, "\r") {
-		// the HTML-based translator turns CR (and CRLF) into LF inside the coloured first line
+	if strings.Contains(msg, "\r") && strings.ContainsAny(msg, "<&") {
+		// text with markup characters goes through the HTML-based translator,
+		// which turns CR (and CRLF) into LF inside the coloured first line
 		vKnown("C06-cr-in-message-breaks-the-coloured-line")
 	}
 	vAssert(off, "C06: every colour switched on is switched off before each line break and before the record ends")
@@ -150,7 +165,7 @@ func VH_C06() {
 	if rawBytes {
 		vKnown("C06-byte-slices-written-raw")
 		for i := 0; i < len(plain); i++ {
-			vAssert(plain[i] >= 0x20 || plain[i] == '\n' || strings.Contains(msg, string(plain[i])), "C06: attribute values contribute no raw control bytes")
+			vAssert(plain[i] >= 0x20 || plain[i] == '\n', "C06: attribute values contribute no raw control bytes")
 		}
 	}
 	for i := 0; i < len(plain); i++ {
